@@ -197,6 +197,10 @@ pub fn run(input: &Value) -> Case {
     let mut drawn: Vec<(usize, (usize, usize))> = vec![];
     // positions named per content (draw, erase, placement of a response), for the known class below
     let mut named: Vec<(usize, (usize, usize))> = vec![];
+    // the id the handler under test has used for a content so far, read from the i= key of the bytes it wrote
+    // for a draw / erase of that content (ids are allocated by the handler: a response "from the terminal"
+    // must name the id that was actually sent)
+    let mut assigned: std::collections::HashMap<usize, u64> = std::collections::HashMap::new();
     let mut repeat_draw = false;
     for o in &ops {
         let kind = o["op"].as_str().unwrap_or("other");
@@ -249,11 +253,15 @@ pub fn run(input: &Value) -> Case {
                 let id = if o["img"].is_null() || built.is_empty() {
                     o["id"].as_u64().unwrap_or(0)
                 } else {
-                    ids_of(&built[k].0, None).0
+                    assigned.get(&cids[k]).copied().unwrap_or_else(|| ids_of(&built[k].0, None).0)
                 };
                 let pl: Option<u64> = if let Some(p) = vpos(&o["pl"]["pos"]) {
                     if !built.is_empty() {
                         named.push((cids[k], p));
+                        // the id reported for p is read back as a position: the last position is read back as
+                        // its neighbour (2^32 positions, 2^32 - 1 ids), so a response for it names both
+                        let idx = ((p.0 % 65536) as u64 + (p.1 % 65536) as u64 * 65536).min(4294967294);
+                        named.push((cids[k], ((idx % 65536) as usize, (idx / 65536) as usize)));
                     }
                     if built.is_empty() {
                         None
@@ -263,10 +271,14 @@ pub fn run(input: &Value) -> Case {
                 } else {
                     o["pl"]["raw"].as_u64()
                 };
-                if pl == Some(4294967295) && !built.is_empty() {
-                    // the largest id is what both (65534,65535) and (65535,65535) map to; the response is
-                    // read as (65534,65535)
-                    named.push((cids[k], (65534, 65535)));
+                if let (Some(p), false, true) = (o["pl"]["raw"].as_u64(), built.is_empty(), o["pl"]["pos"].is_null()) {
+                    // a raw placement id names the position it stands for in the protocol-level numbering
+                    // (id - 1 = row + col * 65536), by the harness' own arithmetic
+                    let idx = p.saturating_sub(1);
+                    named.push((cids[k], ((idx % 65536) as usize, (idx / 65536) as usize)));
+                    if p == 4294967295 {
+                        named.push((cids[k], (65534, 65535)));
+                    }
                 }
                 let err = o["err"].as_bool().unwrap_or(false);
                 if err {
@@ -352,6 +364,11 @@ pub fn run(input: &Value) -> Case {
         match res {
             Some(x) => {
                 n_tx_chunks = n_tx_chunks.max(String::from_utf8_lossy(&x.0).matches("\x1b_G").count());
+                if kind == "draw" || kind == "erase" {
+                    if let (Some(id), false) = (graphics_num(&x.0, "i"), built.is_empty()) {
+                        assigned.insert(cids[k], id);
+                    }
+                }
                 impl_out.push(x)
             }
             None => stopped = true, // a panic ends the history: later calls are not made
@@ -388,26 +405,16 @@ pub fn run(input: &Value) -> Case {
     // Known finding "pid-corner": there are 2^32 positions with coordinates below 65536 but only
     // 2^32 - 1 valid placement ids, so one pair of positions has to share an id (Coq: C11_pid_pigeonhole);
     // with the present numbering it is (65534,65535) and (65535,65535).  Histories naming both for one
-    // content are in the class (an error response carrying the largest id is mapped back to (65534,65535)).
-    let corner = named
-        .iter()
-        .any(|(c, p)| *p == (65534, 65535) && named.iter().any(|(c2, q)| c2 == c && *q == (65535, 65535)));
-    let mut classes: Vec<&str> = vec![];
+    // content are in the class.  The tag is computed from the INPUT alone (positions of the calls, reduced
+    // modulo 65536 by the harness' own arithmetic; placement ids of responses), never from bytes the
+    // implementation wrote.
+    let norm = |p: &(usize, usize)| (p.0 % 65536, p.1 % 65536);
+    let corner = named.iter().any(|(c, p)| {
+        norm(p) == (65534, 65535) && named.iter().any(|(c2, q)| c2 == c && norm(q) == (65535, 65535))
+    });
     if corner {
-        classes.push("pid-corner");
+        j["known_class"] = json!(["pid-corner"]);
         tags.push("known:pid-corner".into());
-    }
-    // Known finding "id-collision": image ids are a 64-bit content hash reduced to 32 bits, so two different
-    // contents can get one id; the handler then takes the second for the first.  Histories holding two
-    // images of different content and equal id are in the class.
-    let ids: Vec<u64> = built.iter().map(|(img, _)| ids_of(img, None).0).collect();
-    let collision = (0..built.len()).any(|a| (0..a).any(|b| cids[a] != cids[b] && ids[a] == ids[b]));
-    if collision {
-        classes.push("id-collision");
-        tags.push("known:id-collision".into());
-    }
-    if !classes.is_empty() {
-        j["known_class"] = json!(classes);
     }
     let maxpix = contents.iter().map(|c| c.2.len()).max().unwrap_or(0);
     tags.push(format!("ops={}", match ops.len() { 0 => "0", 1 => "1", 2..=5 => "2-5", 6..=12 => "6-12", _ => "13+" }));
